@@ -131,7 +131,7 @@ TEXT = {
     "C07": {
         "engine": "verus-compiled-checker",
         "technique": "Verus-verified generic table checker (loop invariants over all 84371 days, sorted-table membership lemma) compiled and executed on the extracted tables",
-        "level_text": "Other (verified checker executed, exhaustive): for tgt, nyc, fed, ldn, stk, osl, zur every weekday 1970-2200 is in the table wired to that name iff the published rules make it a holiday; fed is nyc minus Good Friday as a relation between the two wired tables; all/bus have no holidays; for tro, tyo, syd, wlg, mum every weekday occurrence of the documented plain fixed-date and Easter-linked holidays is in the table; every documented name resolves in both maps of named/mod.rs; for the nine fixing CSVs the business days of the wired calendar over the CSV's span are exactly the publication dates. Each check_* function is proved for ANY table; the instance is decided by running the compiled verified code on the tables extracted from /repo on this run.",
+        "level_text": "Other (verified checker executed, exhaustive): for tgt, nyc, fed, ldn, stk, osl, zur every weekday 1970-2200 is in the table wired to that name iff the published rules make it a holiday; fed is nyc minus Good Friday as a relation between the two wired tables; all/bus have no holidays; for tro, tyo, syd, wlg, mum every weekday occurrence of the documented plain fixed-date and Easter-linked holidays is in the table; every documented name resolves in both maps of named/mod.rs; for the nine fixing CSVs the business days of the wired calendar over the CSV's span are exactly the publication dates. Each check_* function is proved for ANY table; the instance is decided by running the compiled verified code on the tables extracted from /repo on this run. The link from tables to behaviour is closed by an exhaustive native sweep on every run: for all 14 names the object returned by get_calendar_by_name agrees with the extracted table and week mask on every one of the 84371 days (is_holiday on Monday-Friday, is_bus_day on every day), which covers the HashMap wiring, date parsing, Cal::new and the DateRoll impl of Cal.",
         "level_note": "Not a pure SMT proof of the instance: decided by executing verified code. Rules transcribed by hand from RULES / *_script.py. A genuine defect found here (\"fed\" wired to the nyc tables) was repaired in /repo (fix: 1b136f0).",
         "design_ref": "DESIGN.md §7 C07",
     },
